@@ -607,6 +607,8 @@ class Project:
                 if use == "seq":
                     if specs == "fallback":
                         out.append([pv] if self.style.get("bare_fallback", True) else [pv, "_"])
+                    elif self.style.get("pipe") == "tail" and len(specs) >= 2:
+                        out.append([pv, self.print_spec(specs[0], v[1], False), self.pipe_tail(specs[1:], v[1])])
                     elif self.style.get("pipe"):
                         out.append([pv, " | ".join(self.print_spec(s, v[1], True) for s in specs)])
                     else:
@@ -614,6 +616,8 @@ class Project:
                 else:
                     if specs == "fallback":
                         out.append({"value": pv} if self.style.get("bare_fallback", True) else {"count": "_", "value": pv})
+                    elif self.style.get("pipe") == "tail" and len(specs) >= 2:
+                        out.append({"count": [self.print_spec(specs[0], v[1], False), self.pipe_tail(specs[1:], v[1])], "value": pv})
                     elif self.style.get("pipe") or len(specs) == 1:
                         c = " | ".join(self.print_spec(s, v[1], True) for s in specs)
                         out.append({"count": c, "value": pv})
@@ -621,6 +625,11 @@ class Project:
                         out.append({"count": [self.print_spec(s, v[1], False) for s in specs], "value": pv})
             return out
         raise ValueError("cannot print %r" % (k,))
+
+    def pipe_tail(self, specs, ty):
+        # an "a | b" string that is not the first element of a list of counts
+        specs = list(specs) if len(specs) >= 2 else [specs[0], specs[0]]
+        return " | ".join(self.print_spec(s, ty, True) for s in specs)
 
     def print_spec(self, s, ty, force_str):
         ty = ty or "i32"
